@@ -605,8 +605,16 @@ async fn run_behaviour(db: &SqliteStore, b: &Value, rng: &mut Rng) -> RunResult 
         calls: vec![],
     };
     let mut fut: Option<NextFut<'_>> = None;
-    // where the in-flight future is parked ("idle" = no future, "lock" = created, not polled)
+    // where the in-flight future is parked ("idle" = no future, "new" = created, not polled)
     let mut at = "idle".to_string();
+    // Once the code has left the behaviour (`res.drift`), the remaining inputs are still delivered
+    // and the queue is drained, so that the property-level oracles get a complete run to judge.
+    macro_rules! drifted {
+        ($msg:expr) => {{
+            res.drift = Some($msg);
+            break;
+        }};
+    }
 
     macro_rules! observe {
         ($id:expr) => {{
@@ -618,13 +626,16 @@ async fn run_behaviour(db: &SqliteStore, b: &Value, rng: &mut Rng) -> RunResult 
         }};
     }
 
-    for step in b["steps"].as_array().expect("steps") {
+    let steps = b["steps"].as_array().expect("steps");
+    let mut done_steps = 0;
+    for step in steps {
+        done_steps += 1;
         match step["a"].as_str().expect("a") {
             "Input" => {
                 let want = step["at"].as_str().unwrap();
                 if want != at {
-                    res.drift = Some(format!("Input expects `next` parked at {want}, the code is at {at}"));
-                    return res;
+                    done_steps -= 1;
+                    drifted!(format!("Input expects `next` parked at {want}, the code is at {at}"));
                 }
                 drop_next(&mut fut, &ctl);
                 at = "idle".into();
@@ -661,20 +672,19 @@ async fn run_behaviour(db: &SqliteStore, b: &Value, rng: &mut Rng) -> RunResult 
             }
             "Step" | "Ret" => {
                 let Some(f) = fut.as_mut() else {
-                    res.drift = Some("step without a `next` future".into());
-                    return res;
+                    drifted!("step without a `next` future".to_string());
                 };
                 let to = if step["a"] == "Ret" { "idle" } else { step["to"].as_str().unwrap() };
                 ctl.skip_after.set(to != "ret");
                 ctl.go.set(true);
                 let p = advance(f, &ctl).await;
                 let got = pc_of(&p);
-                if got != to {
+                let mismatch = got != to;
+                if mismatch {
                     res.drift = Some(format!(
                         "`next` parked at {got} where the spec has {to} (after {at}; calls so far {:?})",
                         ctl.calls.borrow()
                     ));
-                    return res;
                 }
                 at = got;
                 if let Parked::Done(r) = p {
@@ -691,12 +701,14 @@ async fn run_behaviour(db: &SqliteStore, b: &Value, rng: &mut Rng) -> RunResult 
                         }
                     }
                 }
+                if mismatch {
+                    break;
+                }
             }
             "Cancel" => {
                 let want = step["at"].as_str().unwrap();
                 if want != at {
-                    res.drift = Some(format!("Cancel expects `next` parked at {want}, the code is at {at}"));
-                    return res;
+                    drifted!(format!("Cancel expects `next` parked at {want}, the code is at {at}"));
                 }
                 drop_next(&mut fut, &ctl);
                 at = "idle".into();
@@ -708,6 +720,33 @@ async fn run_behaviour(db: &SqliteStore, b: &Value, rng: &mut Rng) -> RunResult 
     // The behaviour ends at quiescence: `next` parked on the Notify, nothing left to deliver.
     drop_next(&mut fut, &ctl);
     ctl.gating.set(false);
+    if res.drift.is_some() {
+        // free run: deliver what the behaviour still wanted to deliver, then drain the queue
+        for step in &steps[done_steps..] {
+            if step["a"] == "Input" {
+                let x = step["x"].as_str().unwrap();
+                if let Err(e) = w.process(&orderer, x).await {
+                    res.findings.push(("*", "process-error".into(), format!("process({x}) failed: {e}")));
+                    return res;
+                }
+            }
+        }
+        loop {
+            let mut f = start_next(&orderer);
+            match advance(&mut f, &ctl).await {
+                Parked::Done(Ok(op)) => res.released.push(w.name_of(&op)),
+                Parked::Done(Err(e)) => {
+                    res.findings.push(("*", "next-error".into(), format!("next failed: {e}")));
+                    return res;
+                }
+                _ => break,
+            }
+            if res.released.len() > 4 * (w.ops.len() + steps.len()) {
+                res.findings.push(("*", "next-never-runs-dry".into(), format!("`next` keeps returning items: {:?}", res.released)));
+                return res;
+            }
+        }
+    }
     let o = w.observe().await;
     res.calls = ctl.calls.borrow().clone();
     property_oracles(&w, &res.released, &o, true, &mut res.findings);
@@ -820,15 +859,19 @@ fn replay(args: &Args) {
                 _ => {}
             }
         }
-        if let Some(d) = res.drift {
-            // Not a verdict about the property: the spec's await structure is not the code's.
-            drift.get_or_insert(format!("{d}; behaviour {b}"));
-            out.count("drift");
-            continue;
-        }
         for (p, sig, detail) in &res.findings {
             let p = if *p == "*" { prop.as_str() } else { p };
             out.violation(p, sig, detail.clone(), b.clone());
+        }
+        if let Some(d) = &res.drift {
+            // The code did not take the steps of the behaviour (its outputs were judged above on
+            // a free run). Without a property-level finding this is a conformance failure.
+            out.count("left-the-behaviour");
+            if res.findings.is_empty() {
+                drift.get_or_insert(d.clone());
+                out.violation(&prop, "next-steps-differ-from-spec", d.clone(), b.clone());
+            }
+            continue;
         }
         let matches = group.iter().any(|cand| expected_outputs(cand) == res.outputs);
         if !matches {
@@ -853,9 +896,7 @@ fn replay(args: &Args) {
     out.count_by("behaviours", behaviours.len() as u64);
     out.count_by("input-groups", groups.len() as u64);
     if let Some(d) = drift {
-        eprintln!("SPEC DRIFT (tool error, not a verdict): {d}");
-        out.write(args);
-        std::process::exit(2);
+        eprintln!("the code left the specification's steps: {d}");
     }
     out.write(args);
 }
@@ -876,7 +917,11 @@ fn record(args: &Args) {
     let runs = if args.n == 0 { 20 } else { args.n };
     let mut db: Option<SqliteStore> = None;
     let mut db_files: Vec<std::path::PathBuf> = Vec::new();
-    for run in 0..runs {
+    // Sweeps first: one fixed small scenario, the first `next` call dropped after k = 0, 1, 2, ..
+    // steps - k gates of the store wrapper (every store call, before and after, whatever calls
+    // the code makes) and k real suspensions. Independent of the spec's idea of the await points.
+    let sweep: Vec<(u32, bool)> = (0..=10u32).flat_map(|k| [(k, true), (k, false)]).collect();
+    for run in 0..(sweep.len() + runs) {
         out.eval();
         let mut case_rng = Rng::new(rng.next_u64());
         let thorough = args.thorough();
@@ -884,9 +929,10 @@ fn record(args: &Args) {
             db = Some(rt.block_on(file_db(&mut db_files)));
         }
         let store = db.clone().unwrap();
+        let plan = sweep.get(run).copied();
         let r = vh_common::catch(|| {
             let local = tokio::task::LocalSet::new();
-            rt.block_on(local.run_until(record_run(&store, &mut case_rng, thorough)))
+            rt.block_on(local.run_until(record_run(&store, &mut case_rng, thorough, plan)))
         });
         if r.as_ref().map(|rr| !rr.findings.is_empty()).unwrap_or(true) {
             db = None;
@@ -948,6 +994,15 @@ struct RecordRun {
     returns: u64,
 }
 
+fn sweep_graph() -> (Vec<String>, BTreeMap<String, Vec<String>>) {
+    let names: Vec<String> = ["s0", "s1", "s2"].iter().map(|s| s.to_string()).collect();
+    let mut g = BTreeMap::new();
+    g.insert("s0".to_string(), vec![]);
+    g.insert("s1".to_string(), vec!["s0".to_string()]);
+    g.insert("s2".to_string(), vec!["s0".to_string(), "s1".to_string()]);
+    (names, g)
+}
+
 fn random_graph(rng: &mut Rng, thorough: bool) -> (Vec<String>, BTreeMap<String, Vec<String>>) {
     let n = rng.range(2, if thorough { 12 } else { 8 }) as usize;
     let names: Vec<String> = (0..n).map(|i| format!("i{i:02}")).collect();
@@ -973,21 +1028,24 @@ fn random_graph(rng: &mut Rng, thorough: bool) -> (Vec<String>, BTreeMap<String,
     (names, g)
 }
 
-async fn record_run(db: &SqliteStore, rng: &mut Rng, thorough: bool) -> RecordRun {
-    let (names, graph) = random_graph(rng, thorough);
+async fn record_run(db: &SqliteStore, rng: &mut Rng, thorough: bool, sweep: Option<(u32, bool)>) -> RecordRun {
+    let (names, graph) = if sweep.is_some() { sweep_graph() } else { random_graph(rng, thorough) };
     let mut w = World::new(db, &graph, rng).await;
     let orderer = w.orderer();
     let ctl = w.ctl.clone();
     ctl.gating.set(false);
+    ctl.skip_after.set(false);
     // delivery schedule: a random subset in random order, with some redeliveries
-    let mut sched: Vec<String> = names.iter().filter(|_| !rng.chance(1, 10)).cloned().collect();
-    for _ in 0..rng.below(3) {
-        if !sched.is_empty() {
-            let d = rng.pick(&sched).clone();
-            sched.push(d);
+    let mut sched: Vec<String> = names.iter().filter(|_| sweep.is_some() || !rng.chance(1, 10)).cloned().collect();
+    if sweep.is_none() {
+        for _ in 0..rng.below(3) {
+            if !sched.is_empty() {
+                let d = rng.pick(&sched).clone();
+                sched.push(d);
+            }
         }
+        rng.shuffle(&mut sched);
     }
-    rng.shuffle(&mut sched);
     let mut rr = RecordRun {
         events: vec![json!({"ev": "Reset", "deps": graph})],
         findings: vec![],
@@ -1002,6 +1060,7 @@ async fn record_run(db: &SqliteStore, rng: &mut Rng, thorough: bool) -> RecordRu
     let mut fut: Option<NextFut<'_>> = None;
     let mut polls: i64 = 0;
     let mut parked = false;
+    let mut sweep_dropped = false;
 
     enum Act {
         Deliver,
@@ -1012,7 +1071,26 @@ async fn record_run(db: &SqliteStore, rng: &mut Rng, thorough: bool) -> RecordRu
     loop {
         // Buffer-like driver: the input branch wins (drops the pending `next` future, then
         // `process(input).await`), or some other caller drops the future, or it is polled on.
-        let act = if parked {
+        let act = if let Some((k, gated)) = sweep {
+            // deliver s0, s1; poll the first `next` k times and drop it; deliver s2; drain
+            ctl.gating.set(gated && !sweep_dropped && todo.len() == 1);
+            if parked {
+                if todo.is_empty() { Act::Finish } else { Act::Deliver }
+            } else if todo.len() > 1 {
+                Act::Deliver
+            } else if todo.len() == 1 && !sweep_dropped {
+                if polls >= k as i64 {
+                    sweep_dropped = true;
+                    if fut.is_some() { Act::DropOnly } else { Act::Deliver }
+                } else {
+                    Act::Poll
+                }
+            } else if todo.len() == 1 {
+                Act::Deliver
+            } else {
+                Act::Poll
+            }
+        } else if parked {
             if todo.is_empty() { Act::Finish } else { Act::Deliver }
         } else if !todo.is_empty() && rng.chance(1, 3) {
             Act::Deliver
@@ -1072,8 +1150,18 @@ async fn record_run(db: &SqliteStore, rng: &mut Rng, thorough: bool) -> RecordRu
                     polls = 0;
                 }
                 let f = fut.as_mut().unwrap();
-                match poll_once(f, &ctl).await {
-                    None => polls += 1, // resumed after one real suspension
+                let polled = if ctl.gating.get() {
+                    // one gate of the store wrapper further
+                    ctl.go.set(true);
+                    match advance(f, &ctl).await {
+                        Parked::Gate(_) => None,
+                        other => Some(other),
+                    }
+                } else {
+                    poll_once(f, &ctl).await
+                };
+                match polled {
+                    None => polls += 1, // resumed after one real suspension / parked at the next gate
                     Some(Parked::Done(r)) => {
                         fut = None;
                         polls = 0;
@@ -1100,7 +1188,7 @@ async fn record_run(db: &SqliteStore, rng: &mut Rng, thorough: bool) -> RecordRu
                             parked = true;
                         }
                     }
-                    Some(Parked::Gate(_)) => unreachable!("gates are off in record mode"),
+                    Some(Parked::Gate(_)) => unreachable!("gate parks are counted as polls"),
                 }
             }
         }
